@@ -233,6 +233,12 @@ def cases_for(tier, s):
                 if tier == "quick" and (wh == "nonsymmetric") != (it == "exterior_facet"):
                     continue
                 R.append({"kind": "mix", "recipe": {"b": "custom_quadrature", "cell": cell, "p": {"itype": it, "which": wh, "mix": it != "cell"}}})
+    # two different one-point rules sharing a coefficient and the coordinates
+    for cell in ("interval", "triangle", "quadrilateral", "tetrahedron", "hexahedron"):
+        for wh in ("qelem", "custom", "custom_first"):
+            R.append({"kind": "mix", "recipe": {"b": "two_one_point_rules", "cell": cell, "p": {"which": wh}}})
+        if cell != "interval":
+            R.append({"kind": "mix", "recipe": {"b": "two_one_point_rules", "cell": cell, "p": {"which": "custom", "itype": "exterior_facet"}}})
     # a one-point rule and a higher rule sharing a coefficient (selective reduced integration), both declaration orders
     for cell in ("interval", "triangle", "quadrilateral", "tetrahedron", "hexahedron"):
         for lo_first in (True, False):
